@@ -76,6 +76,10 @@ theorem recOk_stay (w : Bool) (k : Nat) (v : Verdict) (enS enR : Bool) (s lb loa
   intro hc
   simp [hv] at hc
 
+@[simp] theorem hearVerdict_crossed (b : Bool) : (hearVerdict b).crossed = false := by cases b <;> rfl
+@[simp] theorem hearVerdict_loaded (b : Bool) : (hearVerdict b).loaded = false := by cases b <;> rfl
+theorem hearVerdict_heard (b : Bool) (h : hearVerdict b = .heard) : b = true := by cases b <;> simp_all [hearVerdict]
+
 mutual
 /-- One event keeps every link and channel within capacity, and every `send_frame` that returns inside it satisfies `RecOk`. -/
 theorem runEv_ok (n : Net) (e : Ev) (h : Inv n) :
@@ -327,6 +331,22 @@ theorem runEv_ok (n : Net) (e : Ev) (h : Inv n) :
             simp only [List.mem_singleton] at hr
             subst hr
             exact recOk_stay _ _ _ _ _ _ _ _ _ _ rfl hl
+  | wrecv c i j =>
+    unfold runEv
+    cases hk : n.chans[c]? with
+    | none =>
+      refine ⟨h, ?_⟩
+      intro r hr
+      simp only [List.mem_singleton] at hr
+      subst hr
+      exact ⟨Nat.le_refl _, fun hc => by simp [Verdict.crossed] at hc⟩
+    | some ch =>
+      have hl : ch.load ≤ ch.cap := h.2 ch (List.mem_of_getElem? hk)
+      refine ⟨h, ?_⟩
+      intro r hr
+      simp only [List.mem_singleton] at hr
+      subst hr
+      exact ⟨hl, fun hc => by simp at hc⟩
 
 theorem runEvs_ok (n : Net) (es : List Ev) (h : Inv n) :
     Inv (runEvs n es).1 ∧ ∀ r ∈ (runEvs n es).2, RecOk r := by
@@ -436,14 +456,15 @@ theorem run_ok (n : Net) (ops : List Op) (h : Inv n) (hs : CapSafe n ops) :
 
 /-- If the frame was handed to a receiving interface then both end interfaces were enabled at that moment **and the frame fitted**:
 the load before it plus its size was within the capacity then in force (wired: the bandwidth; wireless: the capacity of the
-sender's frequency name). -/
+sender's frequency name).  And an interface hears a frame that is in the air only if it is enabled at that moment. -/
 def RecFit (r : Rec) : Prop :=
-  r.verdict.crossed = true → r.enS = true ∧ r.enR = true ∧ r.loadBefore + r.size ≤ r.capS
+  (r.verdict.crossed = true → r.enS = true ∧ r.enR = true ∧ r.loadBefore + r.size ≤ r.capS) ∧
+  (r.verdict = .heard → r.enR = true)
 
-theorem recFit_stay (w : Bool) (k : Nat) (v : Verdict) (enS enR : Bool) (s lb load bw cs : Nat) (hv : v.crossed = false) :
-    RecFit { wireless := w, k, verdict := v, enS, enR, rcv := [], size := s, loadBefore := lb, load, bw, capS := cs } := by
-  intro hc
-  simp [hv] at hc
+theorem recFit_stay (w : Bool) (k : Nat) (v : Verdict) (enS enR : Bool) (s lb load bw cs : Nat) (hv : v.crossed = false)
+    (hh : v ≠ .heard) :
+    RecFit { wireless := w, k, verdict := v, enS, enR, rcv := [], size := s, loadBefore := lb, load, bw, capS := cs } :=
+  ⟨fun hc => by simp [hv] at hc, fun h => absurd h hh⟩
 
 mutual
 theorem runEv_fit (n : Net) (e : Ev) : ∀ r ∈ (runEv n e).2, RecFit r := by
@@ -455,7 +476,7 @@ theorem runEv_fit (n : Net) (e : Ev) : ∀ r ∈ (runEv n e).2, RecFit r := by
       intro r hr
       simp only [List.mem_singleton] at hr
       subst hr
-      exact recFit_stay _ _ _ _ _ _ _ _ _ _ rfl
+      exact recFit_stay _ _ _ _ _ _ _ _ _ _ rfl (by decide)
     | some l =>
       simp only
       by_cases h1 : (if fromA then l.enA else l.enB) = true
@@ -474,28 +495,28 @@ theorem runEv_fit (n : Net) (e : Ev) : ∀ r ∈ (runEv n e).2, RecFit r := by
               · exact runEvs_fit _ nested r hmem
               · simp only [List.mem_singleton] at hmem
                 subst hmem
-                exact fun _ => ⟨rfl, hup, hfit⟩
+                exact ⟨fun _ => ⟨rfl, hup, hfit⟩, fun hh => nomatch hh⟩
             | false =>
               simp only [Bool.false_eq_true, if_false]
               intro r hmem
               simp only [List.mem_singleton] at hmem
               subst hmem
-              exact fun _ => ⟨rfl, hup, hfit⟩
+              exact ⟨fun _ => ⟨rfl, hup, hfit⟩, fun hh => nomatch hh⟩
           · simp only [h1, h2, h3, Bool.not_true, Bool.not_false, Bool.false_eq_true, if_false, if_true]
             intro r hr
             simp only [List.mem_singleton] at hr
             subst hr
-            exact recFit_stay _ _ _ _ _ _ _ _ _ _ rfl
+            exact recFit_stay _ _ _ _ _ _ _ _ _ _ rfl (by decide)
         · simp only [h1, h2, Bool.not_true, Bool.not_false, Bool.false_eq_true, if_false, if_true]
           intro r hr
           simp only [List.mem_singleton] at hr
           subst hr
-          exact recFit_stay _ _ _ _ _ _ _ _ _ _ rfl
+          exact recFit_stay _ _ _ _ _ _ _ _ _ _ rfl (by decide)
       · simp only [h1, Bool.not_false, if_true]
         intro r hr
         simp only [List.mem_singleton] at hr
         subst hr
-        exact recFit_stay _ _ _ _ _ _ _ _ _ _ rfl
+        exact recFit_stay _ _ _ _ _ _ _ _ _ _ rfl (by decide)
   | wsend c i s nested =>
     unfold runEv
     cases hk : n.chans[c]? with
@@ -503,7 +524,7 @@ theorem runEv_fit (n : Net) (e : Ev) : ∀ r ∈ (runEv n e).2, RecFit r := by
       intro r hr
       simp only [List.mem_singleton] at hr
       subst hr
-      exact recFit_stay _ _ _ _ _ _ _ _ _ _ rfl
+      exact recFit_stay _ _ _ _ _ _ _ _ _ _ rfl (by decide)
     | some ch =>
       simp only
       cases hi : ch.en[i]? with
@@ -511,7 +532,7 @@ theorem runEv_fit (n : Net) (e : Ev) : ∀ r ∈ (runEv n e).2, RecFit r := by
         intro r hr
         simp only [List.mem_singleton] at hr
         subst hr
-        exact recFit_stay _ _ _ _ _ _ _ _ _ _ rfl
+        exact recFit_stay _ _ _ _ _ _ _ _ _ _ rfl (by decide)
       | some enS =>
         simp only
         cases hcI : ch.caps[i]? with
@@ -519,7 +540,7 @@ theorem runEv_fit (n : Net) (e : Ev) : ∀ r ∈ (runEv n e).2, RecFit r := by
           intro r hr
           simp only [List.mem_singleton] at hr
           subst hr
-          exact recFit_stay _ _ _ _ _ _ _ _ _ _ rfl
+          exact recFit_stay _ _ _ _ _ _ _ _ _ _ rfl (by decide)
         | some capI =>
         simp only
         cases enS with
@@ -528,7 +549,7 @@ theorem runEv_fit (n : Net) (e : Ev) : ∀ r ∈ (runEv n e).2, RecFit r := by
           intro r hr
           simp only [List.mem_singleton] at hr
           subst hr
-          exact recFit_stay _ _ _ _ _ _ _ _ _ _ rfl
+          exact recFit_stay _ _ _ _ _ _ _ _ _ _ rfl (by decide)
         | true =>
           by_cases h3 : admits ch.load s capI = true
           · simp only [h3, Bool.not_true, Bool.false_eq_true, if_false]
@@ -538,12 +559,12 @@ theorem runEv_fit (n : Net) (e : Ev) : ∀ r ∈ (runEv n e).2, RecFit r := by
             · exact runEvs_fit _ nested r hmem
             · simp only [List.mem_singleton] at hmem
               subst hmem
-              exact fun _ => ⟨rfl, rfl, hfit⟩
+              exact ⟨fun _ => ⟨rfl, rfl, hfit⟩, fun hh => nomatch hh⟩
           · simp only [h3, Bool.not_true, Bool.not_false, Bool.false_eq_true, if_false, if_true]
             intro r hr
             simp only [List.mem_singleton] at hr
             subst hr
-            exact recFit_stay _ _ _ _ _ _ _ _ _ _ rfl
+            exact recFit_stay _ _ _ _ _ _ _ _ _ _ rfl (by decide)
   | setEn k endA v =>
     unfold runEv
     cases hk : n.links[k]? with
@@ -565,7 +586,7 @@ theorem runEv_fit (n : Net) (e : Ev) : ∀ r ∈ (runEv n e).2, RecFit r := by
       intro r hr
       simp only [List.mem_singleton] at hr
       subst hr
-      exact recFit_stay _ _ _ _ _ _ _ _ _ _ rfl
+      exact recFit_stay _ _ _ _ _ _ _ _ _ _ rfl (by decide)
     | some l =>
       simp only
       by_cases h1 : (if fromA then l.enA else l.enB) = true
@@ -581,22 +602,22 @@ theorem runEv_fit (n : Net) (e : Ev) : ∀ r ∈ (runEv n e).2, RecFit r := by
             · exact runEvs_fit _ nested r hmem
             · simp only [List.mem_singleton] at hmem
               subst hmem
-              exact fun _ => ⟨rfl, hup, hfit⟩
+              exact ⟨fun _ => ⟨rfl, hup, hfit⟩, fun hh => nomatch hh⟩
           · simp only [h1, h2, h3, Bool.not_true, Bool.not_false, Bool.false_eq_true, if_false, if_true]
             intro r hr
             simp only [List.mem_singleton] at hr
             subst hr
-            exact recFit_stay _ _ _ _ _ _ _ _ _ _ rfl
+            exact recFit_stay _ _ _ _ _ _ _ _ _ _ rfl (by decide)
         · simp only [h1, h2, Bool.not_true, Bool.not_false, Bool.false_eq_true, if_false, if_true]
           intro r hr
           simp only [List.mem_singleton] at hr
           subst hr
-          exact recFit_stay _ _ _ _ _ _ _ _ _ _ rfl
+          exact recFit_stay _ _ _ _ _ _ _ _ _ _ rfl (by decide)
       · simp only [h1, Bool.not_false, if_true]
         intro r hr
         simp only [List.mem_singleton] at hr
         subst hr
-        exact recFit_stay _ _ _ _ _ _ _ _ _ _ rfl
+        exact recFit_stay _ _ _ _ _ _ _ _ _ _ rfl (by decide)
   | wlost c i s nested =>
     unfold runEv
     cases hk : n.chans[c]? with
@@ -604,7 +625,7 @@ theorem runEv_fit (n : Net) (e : Ev) : ∀ r ∈ (runEv n e).2, RecFit r := by
       intro r hr
       simp only [List.mem_singleton] at hr
       subst hr
-      exact recFit_stay _ _ _ _ _ _ _ _ _ _ rfl
+      exact recFit_stay _ _ _ _ _ _ _ _ _ _ rfl (by decide)
     | some ch =>
       simp only
       cases hi : ch.en[i]? with
@@ -612,7 +633,7 @@ theorem runEv_fit (n : Net) (e : Ev) : ∀ r ∈ (runEv n e).2, RecFit r := by
         intro r hr
         simp only [List.mem_singleton] at hr
         subst hr
-        exact recFit_stay _ _ _ _ _ _ _ _ _ _ rfl
+        exact recFit_stay _ _ _ _ _ _ _ _ _ _ rfl (by decide)
       | some enS =>
         simp only
         cases hcI : ch.caps[i]? with
@@ -620,7 +641,7 @@ theorem runEv_fit (n : Net) (e : Ev) : ∀ r ∈ (runEv n e).2, RecFit r := by
           intro r hr
           simp only [List.mem_singleton] at hr
           subst hr
-          exact recFit_stay _ _ _ _ _ _ _ _ _ _ rfl
+          exact recFit_stay _ _ _ _ _ _ _ _ _ _ rfl (by decide)
         | some capI =>
         simp only
         cases enS with
@@ -629,7 +650,7 @@ theorem runEv_fit (n : Net) (e : Ev) : ∀ r ∈ (runEv n e).2, RecFit r := by
           intro r hr
           simp only [List.mem_singleton] at hr
           subst hr
-          exact recFit_stay _ _ _ _ _ _ _ _ _ _ rfl
+          exact recFit_stay _ _ _ _ _ _ _ _ _ _ rfl (by decide)
         | true =>
           by_cases h3 : admits ch.load s capI = true
           · simp only [h3, Bool.not_true, Bool.false_eq_true, if_false]
@@ -639,12 +660,25 @@ theorem runEv_fit (n : Net) (e : Ev) : ∀ r ∈ (runEv n e).2, RecFit r := by
             · exact runEvs_fit _ nested r hmem
             · simp only [List.mem_singleton] at hmem
               subst hmem
-              exact fun _ => ⟨rfl, rfl, hfit⟩
+              exact ⟨fun _ => ⟨rfl, rfl, hfit⟩, fun hh => nomatch hh⟩
           · simp only [h3, Bool.not_true, Bool.not_false, Bool.false_eq_true, if_false, if_true]
             intro r hr
             simp only [List.mem_singleton] at hr
             subst hr
-            exact recFit_stay _ _ _ _ _ _ _ _ _ _ rfl
+            exact recFit_stay _ _ _ _ _ _ _ _ _ _ rfl (by decide)
+  | wrecv c i j =>
+    unfold runEv
+    cases hk : n.chans[c]? with
+    | none =>
+      intro r hr
+      simp only [List.mem_singleton] at hr
+      subst hr
+      exact ⟨fun hc => by simp [Verdict.crossed] at hc, fun hh => nomatch hh⟩
+    | some ch =>
+      intro r hr
+      simp only [List.mem_singleton] at hr
+      subst hr
+      exact ⟨fun hc => by simp at hc, fun hh => hearVerdict_heard _ hh⟩
 
 theorem runEvs_fit (n : Net) (es : List Ev) : ∀ r ∈ (runEvs n es).2, RecFit r := by
   cases es with
@@ -727,43 +761,38 @@ theorem C18_inv_after_tick (n : Net) : Inv (tick n) := tick_inv n
 For every history from every state (no invariant needed; capacity changes and aborted deliveries included). -/
 theorem C18_down_carries_nothing (n : Net) (ops : List Op) :
     ∀ r ∈ (run n ops).2, r.verdict.crossed = true → r.enS = true ∧ r.enR = true :=
-  fun r hmem hc => ⟨(run_fit n ops r hmem hc).1, (run_fit n ops r hmem hc).2.1⟩
+  fun r hmem hc => ⟨((run_fit n ops r hmem).1 hc).1, ((run_fit n ops r hmem).1 hc).2.1⟩
 
 /-- **A frame crosses only if it fits.** Every frame handed to a receiving interface fitted, at that moment, within the capacity
 then in force: `load before + size ≤ capacity`.  For every history from every state: whatever the loads were, whatever capacity
 changes happened in between, whether or not the delivery later ended in an exception. -/
 theorem C18_crossed_only_if_fits (n : Net) (ops : List Op) :
     ∀ r ∈ (run n ops).2, r.verdict.crossed = true → r.loadBefore + r.size ≤ r.capS :=
-  fun r hmem hc => (run_fit n ops r hmem hc).2.2
+  fun r hmem hc => ((run_fit n ops r hmem).1 hc).2.2
 
-/-- The wireless receivers are enabled interfaces other than the sender. -/
-theorem receiversFrom_spec (i : Nat) (en : List Bool) (base j : Nat) (hj : j ∈ receiversFrom i base en) :
-    j ≠ i ∧ base ≤ j ∧ en[j - base]? = some true := by
-  induction en generalizing base with
-  | nil => simp [receiversFrom] at hj
-  | cons b bs ih =>
-    unfold receiversFrom at hj
-    by_cases hb : (b && base != i) = true
-    · simp only [hb, if_true, List.mem_cons] at hj
-      rcases hj with hj | hj
-      · subst hj
-        simp only [Bool.and_eq_true, bne_iff_ne, ne_eq] at hb
-        exact ⟨hb.2, Nat.le_refl _, by simp [hb.1]⟩
-      · obtain ⟨h1, h2, h3⟩ := ih (base + 1) hj
-        refine ⟨h1, by omega, ?_⟩
-        have : j - base = (j - (base + 1)) + 1 := by omega
-        rw [this]; simpa using h3
-    · simp only [hb, Bool.false_eq_true, if_false] at hj
-      obtain ⟨h1, h2, h3⟩ := ih (base + 1) hj
-      refine ⟨h1, by omega, ?_⟩
-      have : j - base = (j - (base + 1)) + 1 := by omega
-      rw [this]; simpa using h3
+/-- **Wireless: only an interface that is enabled at that moment hears the frame** — decided at each turn of the loop of
+`AirSpace.transmit`, not when the send starts: for every history from every state. -/
+theorem C18_wireless_heard_only_if_enabled (n : Net) (ops : List Op) :
+    ∀ r ∈ (run n ops).2, r.verdict = .heard → r.enR = true :=
+  fun r hmem hh => (run_fit n ops r hmem).2 hh
 
-/-- **Wireless: only enabled interfaces receive.** -/
-theorem C18_wireless_receivers_enabled (en : List Bool) (i j : Nat) (hj : j ∈ receivers en i) :
-    j ≠ i ∧ en[j]? = some true := by
-  obtain ⟨h1, _, h3⟩ := receiversFrom_spec i en 0 j hj
-  exact ⟨h1, by simpa using h3⟩
+/-- One turn of that loop: interface `j` hears the frame sent by `i` iff it is enabled **now** and is not the sender; nothing
+else changes. -/
+theorem C18_wireless_hears_iff_enabled_now (n : Net) (c i j : Nat) (ch : Chan) (hc : n.chans[c]? = some ch) :
+    (runEv n (.wrecv c i j)).1 = n ∧
+    ∃ r, (runEv n (.wrecv c i j)).2 = [r] ∧ r.rcv = [j] ∧ (r.verdict = .heard ↔ (ch.en[j]? = some true ∧ j ≠ i)) := by
+  unfold runEv
+  simp only [hc, true_and]
+  refine ⟨_, rfl, rfl, ?_⟩
+  cases hj : ch.en[j]? with
+  | none => simp [hearVerdict]
+  | some b =>
+    cases b with
+    | false => simp [hearVerdict]
+    | true =>
+      by_cases hij : j = i
+      · simp [hearVerdict, hij]
+      · simp [hearVerdict, hij]
 
 /-- **Overflow is dropped at the sender (wired).** If the frame does not fit, nothing changes anywhere, nothing nested runs,
 and the single record says the frame did not cross. -/
@@ -995,11 +1024,15 @@ example :
     r.1.links = [{ bw := 10, load := 4, enA := true, enB := false }] ∧
     r.2.map (·.verdict) = [.disabled, .carried, .down] := by decide
 
-/-- Wireless: three interfaces, the third disabled; a send from 0 reaches exactly interface 1. -/
+/-- Wireless: three interfaces, the third disabled; a send from 0 is heard by interface 1 (whose reply does not fit), not by 2;
+interface 2 is enabled while 1 is processing, so the same loop then reaches it and it hears the frame. -/
 example :
     let n : Net := { links := [], chans := [{ caps := [10, 10, 10], load := 0, en := [true, true, false] }] }
-    let r := run n [.act [.wsend 0 0 7 [.wsend 0 1 4 []]], .tick, .act [.wsend 0 2 1 []]]
-    r.2.map (fun x => (x.verdict, x.rcv, x.load)) = [(.full, [], 7), (.carried, [1], 7), (.disabled, [], 0)] := by decide
+    let r := run n [.act [.wsend 0 0 7 [.wrecv 0 0 1, .wsend 0 1 4 [], .wrecv 0 0 2]], .tick,
+                    .act [.wsend 0 0 1 [.wrecv 0 0 1, .wsetEn 0 2 true, .wrecv 0 0 2]], .act [.wsend 0 2 1 [.wrecv 0 2 2]]]
+    r.2.map (fun x => (x.verdict, x.rcv, x.load)) =
+      [(.heard, [1], 7), (.full, [], 7), (.deaf, [2], 7), (.carried, [], 7),
+       (.heard, [1], 1), (.heard, [2], 1), (.carried, [], 1), (.deaf, [2], 2), (.carried, [], 2)] := by decide
 
 /-! ### Exact accounting: the load *is* the data carried -/
 
@@ -1167,6 +1200,11 @@ theorem runEv_accounts (n : Net) (e : Ev) (k : Nat) :
             rw [ih, carriedOn_append]
             simp [carriedOn, Rec.carriedBy, loadOf]
           · simp [h3, carriedOn, Rec.carriedBy]
+  | wrecv c0 i j =>
+    unfold runEv
+    cases hc : n.chans[c0]? with
+    | none => simp [carriedOn, Rec.carriedBy]
+    | some ch => simp [carriedOn, Rec.carriedBy]
 
 theorem runEvs_accounts (n : Net) (es : List Ev) (k : Nat) :
     loadOf (runEvs n es).1 k = loadOf n k + carriedOn false k (runEvs n es).2 := by
@@ -1306,6 +1344,11 @@ theorem runEv_bw (n : Net) (e : Ev) (k : Nat) :
             rw [ih.1, ih.2, capOf_set n c k ch { ch with load := ch.load + s } hc rfl]
             exact ⟨rfl, rfl⟩
           · simp [h3]
+  | wrecv c0 i j =>
+    unfold runEv
+    cases hc : n.chans[c0]? with
+    | none => exact ⟨rfl, rfl⟩
+    | some ch => exact ⟨rfl, rfl⟩
 
 theorem runEvs_bw (n : Net) (es : List Ev) (k : Nat) :
     bwOf (runEvs n es).1 k = bwOf n k ∧ capOf (runEvs n es).1 k = capOf n k := by
@@ -1434,6 +1477,11 @@ theorem runEv_air_accounts (n : Net) (e : Ev) (c : Nat) :
             · have : ¬ c0 = c := fun e => hcc e.symm
               simp [carriedOn, Rec.carriedBy, hcc, this]
           · simp [h3, carriedOn, Rec.carriedBy]
+  | wrecv c0 i j =>
+    unfold runEv
+    cases hc : n.chans[c0]? with
+    | none => simp [carriedOn, Rec.carriedBy]
+    | some ch => simp [carriedOn, Rec.carriedBy]
 
 theorem runEvs_air_accounts (n : Net) (es : List Ev) (c : Nat) :
     cloadOf (runEvs n es).1 c = cloadOf n c + carriedOn true c (runEvs n es).2 := by
@@ -1716,6 +1764,11 @@ theorem runEv_under (n : Net) (e : Ev) (c C A : Nat) (hA : A ≤ cloadOf n c) (h
               have : ¬ c0 = c := fun e => hcc e.symm
               simp [sentUnder, Rec.sentUnder, this]; omega
           · simpa [h3, sentUnder, Rec.sentUnder] using hC
+  | wrecv c0 i j =>
+    unfold runEv
+    cases hc : n.chans[c0]? with
+    | none => simpa [sentUnder, Rec.sentUnder] using hC
+    | some ch => simpa [sentUnder, Rec.sentUnder] using hC
 
 theorem runEvs_under (n : Net) (es : List Ev) (c C A : Nat) (hA : A ≤ cloadOf n c) (hC : A ≤ C) :
     A + sentUnder c C (runEvs n es).2 ≤ C := by
@@ -1928,6 +1981,11 @@ theorem runEv_wunder (n : Net) (e : Ev) (k C A : Nat) (hA : A ≤ loadOf n k) (h
             rw [carriedUnder_append]
             simpa [carriedUnder, Rec.carriedUnder] using ih
           · simpa [h3, carriedUnder, Rec.carriedUnder] using hC
+  | wrecv c0 i j =>
+    unfold runEv
+    cases hc : n.chans[c0]? with
+    | none => simpa [carriedUnder, Rec.carriedUnder] using hC
+    | some ch => simpa [carriedUnder, Rec.carriedUnder] using hC
 
 theorem runEvs_wunder (n : Net) (es : List Ev) (k C A : Nat) (hA : A ≤ loadOf n k) (hC : A ≤ C) :
     A + carriedUnder k C (runEvs n es).2 ≤ C := by
